@@ -54,7 +54,10 @@ void calcVarExpressed(double ss, dvector *eval, dvector *varexp)
 /* ss is the sum of squares, eval = eigenvalue  varexp is an object that is resized for each component */
 {
   for(size_t i = 0; i < eval->size; i++){
-    DVectorAppend(varexp, (eval->data[i]/ss) * 100);
+    if(ss > 0)
+      DVectorAppend(varexp, (eval->data[i]/ss) * 100);
+    else
+      DVectorAppend(varexp, 0.f); /* no variance at all: nothing to explain */
     #ifdef DEBUG
     printf("Variance expressed for PC %u\t %f\n", (unsigned int)i, (getDVectorValue(eval, i)/ss) * 100);
     #endif
@@ -126,6 +129,7 @@ void PCA(matrix *mx, int scaling, size_t npc, PCAMODEL* model, ssignal *s)
   dvector *p;
   dvector *colvar;
   dvector *eval; /* t't */
+  double conv;
   double mod_p;
   double mod_t;
   double ss;
@@ -299,7 +303,18 @@ void PCA(matrix *mx, int scaling, size_t npc, PCAMODEL* model, ssignal *s)
         puts("....................");
         #endif
 
-        if(calcConvergence(t, t_old) < PCACONVERGENCE){
+        conv = calcConvergence(t, t_old);
+        if(_isnan_(conv)){
+          /* The residual matrix is exhausted (t'*t == 0, e.g. more components
+           * requested than the rank of the data): no further component is
+           * defined. Store a null component instead of iterating forever on NaN. */
+          DVectorSet(t, 0.f);
+          DVectorSet(p, 0.f);
+          mod_t = 0.f;
+          conv = 0.f;
+        }
+
+        if(conv < PCACONVERGENCE){
           /* copy the loadings and score to the output data matrix */
           for(i = 0; i < t->size; i++){
             model->scores->data[i][pc] = t->data[i];
